@@ -70,8 +70,8 @@ CLAIMS.update({
     'C01': ('Round-trip theorem at full strength: every well-formed configuration (wf_cfgb), every codec table of 256 entries, binary and hex bitmap, every well-formed message (wf_msgb: '
             'any subset of elements, all admissible lengths, ints, dates in the window, ICC TLV, PDS keys packed into carriers, carriers given directly, PAN / PAN-PREFIX processors): '
             'dumps succeeds, loads of the bytes succeeds, every original key returns its (masked / prefixed) value and every other key is a documented derived one. Domain '
-            'hypotheses re-proved for the packaged configuration and all 12 generated codec tables on every run. Element-level round trip for decimal typed elements (props/C01dec.v: plain fixed-point decimals carried by their text, model/Dec.v). Correspondence + round-trip oracle on generated messages, each checked to lie in wf_msgb (decimal-element configurations apart).',
-            TB + 'decimal elements are outside the message-level domain wf_cfgb (element-level theorem only; literals with exponent, NaN / Infinity, underscores or non-ASCII digits are Unmodelled); non-canonical date strings and DE43 patterns outside the modelled regex fragment are outside the model (Unmodelled / oracle); the DE43 pattern is translated from the configuration on every run',
+            'hypotheses re-proved for the packaged configuration and all 12 generated codec tables on every run. Decimal typed elements are inside that domain (plain fixed-point decimals carried by their canonical text, model/Dec.v; props/C01dec.v: element-level round trip and C01_decimal_message). Correspondence + round-trip oracle on generated messages, each checked to lie in wf_msgb.',
+            TB + 'decimal literals with exponent, NaN / Infinity, underscores or non-ASCII digits are Unmodelled; an int given to a decimal element is outside the domain (it comes back as a decimal); non-canonical date strings and DE43 patterns outside the modelled regex fragment are outside the model (Unmodelled / oracle); the DE43 pattern is translated from the configuration on every run',
             'Coq proof (field self-delimitation, induction over the bit range, PDS packing/recovery lemmas, strptime/strftime inverse) + differential correspondence', '6/C01'),
     'C02': ('Encode direction: whenever the model encoder returns, the bytes decompose as MTI ++ bitmap ++ body with the bitmap characterised bit by bit (independent bit_set), 16 bytes or 32 lowercase hex '
             'characters, and the body equal to the declarative element-by-element layout (elem_wire / wire_body; for str numerals on int/date elements through their native value); over-length variable '
